@@ -104,6 +104,33 @@ def run_block_stmts(t: Translator, stmts):
             t.run_block([st])
 
 
+def verlet_constrained(prog: Program, L: Ledger, rule: str) -> None:
+    """Constrained branch of Verlet.integrate: the second kick starts from the momentum of the
+    constrained displacement and both writes are constraint-aware."""
+    ver = prog.cls("Verlet")
+    integ = ver.methods.get("integrate")
+    loops = [s for s in integ.body() if isinstance(s, ast.For)]
+    if len(loops) != 1:
+        raise AnalysisError("Verlet.integrate: expected one loop")
+    loop = loops[0]
+    pre = integ.body()[: integ.body().index(loop)]
+    x, p, m, dt = sp.Symbol("x", real=True), sp.Symbol("p", real=True), sp.Symbol("m", positive=True), sp.Symbol("dt", positive=True)
+    # constrained branch: half-step momentum recomputed from the constrained displacement
+    vocab = Vocabulary({"self.dt": ("dt", {"positive": True}), "atoms.get_masses()[:, None]": ("m", {"positive": True})})
+    vocab.symbols.update({"dt": dt, "m": m})
+    vocab.bind("self.apply_constraints", sp.true)
+    st = AtomsState(x, p)
+    t = Translator(vocab)
+    t.hooks.append(st.hook)
+    run_block_stmts(t, pre)
+    run_block_stmts(t, loop.body)
+    xc = Con(x + (p + sp.Rational(1, 2) * Ffun(x) * dt) / m * dt)
+    pc = ConM((xc - x) * m / dt + sp.Rational(1, 2) * Ffun(xc) * dt)
+    _decide(L, rule, "Verlet.integrate[constrained]:positions", integ.where, st.x, xc, "constrained drift is not the constrained velocity-Verlet drift")
+    _decide(L, rule, "Verlet.integrate[constrained]:momenta", integ.where, st.p, pc, "with constraints the second kick must start from the momentum of the *constrained* displacement, (x'−x)·m/dt")
+
+
+
 def run(prog: Program, L: Ledger) -> None:
     L.explanation = (
         "C14: the shipped integrator's loop body is value-numbered with a stateful summary of the Atoms API (positions and momenta are "
@@ -161,19 +188,7 @@ def run(prog: Program, L: Ledger) -> None:
         L.check(len(st.force_evals) == iters + 1, "V", f"Verlet.integrate[{iters} step(s)]:force-evaluations", integ.where,
                 f"{len(st.force_evals)} force evaluations for {iters} step(s) (expected one initial plus one per step)", "forces recomputed needlessly or reused stale", "forces")
 
-    # constrained branch: half-step momentum recomputed from the constrained displacement
-    vocab = Vocabulary({"self.dt": ("dt", {"positive": True}), "atoms.get_masses()[:, None]": ("m", {"positive": True})})
-    vocab.symbols.update({"dt": dt, "m": m})
-    vocab.bind("self.apply_constraints", sp.true)
-    st = AtomsState(x, p)
-    t = Translator(vocab)
-    t.hooks.append(st.hook)
-    run_block_stmts(t, pre)
-    run_block_stmts(t, loop.body)
-    xc = Con(x + (p + sp.Rational(1, 2) * Ffun(x) * dt) / m * dt)
-    pc = ConM((xc - x) * m / dt + sp.Rational(1, 2) * Ffun(xc) * dt)
-    _decide(L, "V", "Verlet.integrate[constrained]:positions", integ.where, st.x, xc, "constrained drift is not the constrained velocity-Verlet drift")
-    _decide(L, "V", "Verlet.integrate[constrained]:momenta", integ.where, st.p, pc, "with constraints the second kick must start from the momentum of the *constrained* displacement, (x'−x)·m/dt")
+    verlet_constrained(prog, L, "V")
 
     # ------------------------------------------------------------------ MB
     mb = prog.func(f"{prog.package}.utils.dynamics", "maxwell_boltzmann_distribution")
